@@ -151,6 +151,17 @@ Theorem C20_decrypt_never_panics_refuted :
 Proof. exact (ex_intro _ panic_file decrypt_panics). Qed.
 Print Assumptions C20_decrypt_never_panics_refuted.
 
+(* … but it does not panic when every kdfparams member the code type-asserts has the asserted JSON
+   type (salt, prf strings; dklen, n, r, p, c numbers) and the primitives themselves return or fail
+   with at least 32 bytes of derived-key capacity (that is: the dklen <= 0, r/p = 0 and IV-length
+   panics are panics of / after the primitives, recorded as separate findings). *)
+Theorem C20_decrypt_no_panic_partial :
+  forall kdf aes_ctr aes_cbc_dec H pub_addr (f : keyfile) (auth : bytes),
+    kdfparams_typed f -> prims_total kdf aes_ctr aes_cbc_dec ->
+    decrypt_key kdf aes_ctr aes_cbc_dec H pub_addr f auth <> Panic.
+Proof. exact decrypt_no_panic. Qed.
+Print Assumptions C20_decrypt_no_panic_partial.
+
 (* 4. Unlocking as a history (keystore.go Unlock / TimedUnlock / Lock / Update / Export /
       Delete / SignHash, SignTx): the lock-state machine ks_step of KeystoreModel.v, tied to the
       KeyStore by random operation histories on every run.  For EVERY history ops from
